@@ -97,3 +97,908 @@ def cpython_verdict(data, name="<c43>"):
         return False, "SyntaxError: %s" % (e.msg,)
     except (ValueError, OverflowError, RecursionError, MemoryError, UnicodeError) as e:
         return False, "%s: %s" % (type(e).__name__, str(e)[:80])
+
+
+# --------------------------------------------------------------------------
+# literal-focused / nesting / encoding families (validity is decided by CPython alone: P)
+
+def _esc_family():
+    out = []
+    # every single-character escape, in str / bytes / f-string / raw
+    for c in range(32, 127):
+        ch = chr(c)
+        if ch in "'\\":
+            continue
+        out.append(("esc1", "str-%d" % c, "x = '\\%s'\n" % ch))
+        if c % 3 == 0:
+            out.append(("esc1", "bytes-%d" % c, "x = b'\\%s'\n" % ch))
+        if c % 5 == 0 and ch not in "{}":
+            out.append(("esc1", "fstr-%d" % c, "x = f'\\%s{id}'\n" % ch))
+    forms = ["\\x4", "\\x", "\\xg1", "\\x41", "\\u20a", "\\u20ac", "\\U0001f60", "\\U0001f600", "\\U00110000", "\\UFFFFFFFF",
+             "\\N{DIGIT ONE}", "\\N{NOPE NOPE}", "\\N{", "\\N{}", "\\N", "\\N{DIGIT ONE", "\\400", "\\777", "\\1234", "\\08", "\\8", "\\9",
+             "\\0", "\\00", "\\000", "\\377", "\\ud800", "\\udfff", "\\ud800\\udc00", "\\udc00\\ud800", "\\ud83d\\ude00", "\\\\", "\\'", "\\\"",
+             "\\\n", "\\\r\n", "\\ ", "\\\t", "\\", "\\x00", "\\x7f", "\\x80", "\\xff", "\\u0000", "\\uffff", "\\U0010ffff", "\\ufffe"]
+    for i, f in enumerate(forms):
+        for pfx in ("", "b", "r", "rb", "f", "u", "bR", "Rb", "fr", "Fr", "rF", "ur", "bu", "fb", "B", "F"):
+            for q in ("'", '"""'):
+                if q == '"""' and i % 4:
+                    continue
+                out.append(("esc2", "%s%s-%d" % (pfx, "3" if q != "'" else "1", i), "x = %s%s%s%s\n" % (pfx, q, f, q)))
+    # the same as the first statement (docstring position) and inside a function / class (docstrings)
+    for i, f in enumerate(forms):
+        out.append(("escdoc", "module-%d" % i, "'%s'\n" % f))
+        out.append(("escdoc", "func-%d" % i, "def f():\n    '%s'\n" % f))
+        out.append(("escdoc", "class-%d" % i, "class K:\n    '%s'\n    x = 1\n" % f))
+        out.append(("escdoc", "bytesfunc-%d" % i, "def f():\n    b'%s'\n" % f))
+    return out
+
+
+def _num_family():
+    out = []
+    digs = [1, 18, 19, 20, 39, 40, 300, 1000, 4299, 4300, 4301, 5000, 20000]
+    for n in digs:
+        d = "9" * n
+        out.append(("bigint", "dec-%d" % n, "x = %s\n" % d))
+        out.append(("bigint", "negdec-%d" % n, "x = -%s\n" % d))
+        out.append(("bigint", "hex-%d" % n, "x = 0x%s\n" % ("f" * n)))
+        out.append(("bigint", "neghex-%d" % n, "x = -0x%s\n" % ("f" * n)))
+        out.append(("bigint", "oct-%d" % n, "x = 0o%s\n" % ("7" * n)))
+        out.append(("bigint", "bin-%d" % n, "x = 0b%s\n" % ("1" * n)))
+        out.append(("bigint", "under-%d" % n, "x = %s\n" % "_".join(["9"] * min(n, 3000))))
+        out.append(("bigfloat", "int-%d" % n, "x = %s.0\n" % d))
+        out.append(("bigfloat", "frac-%d" % n, "x = 0.%s\n" % d))
+        out.append(("bigfloat", "exp-%d" % n, "x = 1e%s\n" % ("9" * min(n, 40))))
+        out.append(("bigfloat", "negexp-%d" % n, "x = 1e-%s\n" % ("9" * min(n, 40))))
+        out.append(("bigfloat", "imag-%d" % n, "x = %sj\n" % d))
+        out.append(("bigint", "index-%d" % n, "x = id[%s]\n" % d))
+        out.append(("bigint", "arith-%d" % n, "x = %s + 1\n" % d))
+        out.append(("bigint", "mul-%d" % n, "x = %s * %s\n" % (d, d)))
+        out.append(("bigint", "cmp-%d" % n, "x = id < %s\n" % d))
+        out.append(("bigint", "default-%d" % n, "def f(a=%s): return a\n" % d))
+        out.append(("bigint", "case-%d" % n, "match id:\n    case %s: pass\n" % d))
+    for e in ["1 << 64", "1 << 1000", "1 << 100000", "2 ** 64", "2 ** 1000", "2 ** 100000", "10 ** 5000", "2 ** -1", "2 ** 0.5", "(-8) ** (1/3)",
+              "1 / 0", "1 // 0", "1 % 0", "1.0 / 0", "1 / 0.0", "0 ** -1", "1j / 0", "divmod(1, 0)", "1 << -1", "1 >> -1", "1 << 2.0",
+              "'a' * 10 ** 9", "'a' * -1", "(1,) * 10 ** 6", "[0] * 10 ** 9", "b'a' * 2 ** 40", "'ab' * 2 ** 62", "()* 2 ** 63",
+              "1e308 * 10", "-1e308 * 10", "1e308 + 1e308", "9 ** 9 ** 9", "-(2 ** 63)", "-(2 ** 63) - 1", "2 ** 63", "~(2 ** 64)",
+              "0x7fffffffffffffff + 1", "-0x8000000000000000 - 1", "1_0 ** 1_0", "0b1 << 0o100", "3 * 'a' * 3", "not 0 ** -1",
+              "'%d' % 10 ** 5000", "'%s' % (1, 2)", "'%(a)s' % {}", "'{' .format()", "'a' 'b' * 3", "'abc'[1:2:0]", "[1, 2][-3]",
+              "1 if 1 / 0 else 2", "1 and 1 / 0", "0 and 1 / 0", "(1 / 0, 2)[1]", "{1: 1 / 0}", "[1 / 0]", "-(-(-(1)))",
+              "True + True", "True / False", "None is None", "1 is 1", "'a' is 'a'", "1 in ()", "1 in (1, 'a')", "'a' in 'abc'", "1 < 'a'",
+              "1 < 2 < 'a'", "not 1 < 'a'", "1.5 // 0.5", "1.5 % 0", "float('nan')", "1e999 - 1e999", "1e999 * 0", "-0.0", "0.0 * -1", "1j * 1j", "1j ** 2",
+              "(1+2j).real", "abs(-2 ** 63)", "len('a' * 5)", "ord('ab')", "chr(-1)", "chr(0x110000)", "int('z')", "round(1.5, 10 ** 9)"]:
+        out.append(("constfold", e, "x = %s\n" % e))
+        out.append(("constfold", "ret " + e, "def f():\n    return %s\n" % e))
+    return out
+
+
+def _nest_family(tier):
+    out = []
+    depths = [10, 30, 60, 90, 150, 199] + ([300, 1000, 3000] if tier != "quick" else [300])
+    for n in depths:
+        out.append(("nest", "paren-%d" % n, "x = " + "(" * n + "1" + ")" * n + "\n"))
+        out.append(("nest", "list-%d" % n, "x = " + "[" * n + "]" * n + "\n"))
+        out.append(("nest", "tuple-%d" % n, "x = " + "(" * n + "1" + ",)" * n + "\n"))
+        out.append(("nest", "dict-%d" % n, "x = " + "{1:" * n + "1" + "}" * n + "\n"))
+        out.append(("nest", "call-%d" % n, "x = " + "id(" * n + "1" + ")" * n + "\n"))
+        out.append(("nest", "sub-%d" % n, "x = id" + "[id" * n + "]" * n + "\n"))
+        out.append(("nest", "attr-%d" % n, "x = id" + ".a" * n + "\n"))
+        out.append(("nest", "callchain-%d" % n, "x = id" + "()" * n + "\n"))
+        out.append(("nest", "subchain-%d" % n, "x = id" + "[0]" * n + "\n"))
+        out.append(("nest", "unary-%d" % n, "x = " + "-" * n + "1\n"))
+        out.append(("nest", "unaryid-%d" % n, "x = " + "-~" * n + "id\n"))
+        out.append(("nest", "not-%d" % n, "x = " + "not " * n + "id\n"))
+        out.append(("nest", "add-%d" % n, "x = " + "id + " * n + "id\n"))
+        out.append(("nest", "addconst-%d" % n, "x = " + "1 + " * n + "1\n"))
+        out.append(("nest", "strcat-%d" % n, "x = " + "'a' " * n + "\n"))
+        out.append(("nest", "stradd-%d" % n, "x = " + "'a' + " * n + "'b'\n"))
+        out.append(("nest", "pow-%d" % n, "x = " + "id ** " * n + "id\n"))
+        out.append(("nest", "and-%d" % n, "x = " + "id and " * n + "id\n"))
+        out.append(("nest", "or-%d" % n, "x = " + "id or " * n + "id\n"))
+        out.append(("nest", "cmp-%d" % n, "x = " + "id < " * n + "id\n"))
+        out.append(("nest", "cond-%d" % n, "x = " + "id if id else " * n + "id\n"))
+        out.append(("nest", "lambda-%d" % n, "x = " + "lambda: " * n + "id\n"))
+        out.append(("nest", "fstr-%d" % n, "x = " + "".join("f%s{" % q for q in (["'", '"'] * n)[:min(n, 150)]) + "id" + "".join("}%s" % q for q in reversed((["'", '"'] * n)[:min(n, 150)])) + "\n"))
+        out.append(("nest", "fspec-%d" % n, "x = f'{id:" + "{id:" * min(n, 100) + "}" * min(n, 100) + "}'\n"))
+        out.append(("nest", "elif-%d" % n, "if id: pass\n" + "elif id: pass\n" * n))
+        out.append(("nest", "args-%d" % n, "id(" + ", ".join(["id"] * n) + ")\n"))
+        out.append(("nest", "kwargs-%d" % n, "id(" + ", ".join("k%d=id" % i for i in range(n)) + ")\n"))
+        out.append(("nest", "params-%d" % n, "def f(" + ", ".join("p%d" % i for i in range(n)) + "): pass\n"))
+        out.append(("nest", "kwonly-%d" % n, "def f(*, " + ", ".join("p%d=%d" % (i, i) for i in range(n)) + "): pass\n"))
+        out.append(("nest", "targets-%d" % n, ", ".join("t%d" % i for i in range(n)) + " = id\n"))
+        out.append(("nest", "chainassign-%d" % n, " = ".join("t%d" % i for i in range(n)) + " = id\n"))
+        out.append(("nest", "targetnest-%d" % n, "(" * n + "t" + ",)" * n + " = id\n"))
+        out.append(("nest", "decorators-%d" % n, "@id\n" * n + "def f(): pass\n"))
+        out.append(("nest", "globals-%d" % n, "global " + ", ".join("g%d" % i for i in range(n)) + "\n"))
+        out.append(("nest", "with-%d" % n, "with " + ", ".join("id as w%d" % i for i in range(n)) + ": pass\n"))
+        out.append(("nest", "except-%d" % n, "try: pass\n" + "".join("except E%d: pass\n" % i for i in range(n)).replace("E", "id.E")))
+        out.append(("nest", "cases-%d" % n, "match id:\n" + "".join("    case %d: pass\n" % i for i in range(n))))
+        out.append(("nest", "orpat-%d" % n, "match id:\n    case " + " | ".join(str(i) for i in range(n + 1)) + ": pass\n"))
+        out.append(("nest", "seqpat-%d" % n, "match id:\n    case " + "[" * n + "_" + "]" * n + ": pass\n"))
+        out.append(("nest", "compfor-%d" % n, "x = [id " + " ".join("for v%d in id" % i for i in range(n)) + "]\n"))
+        out.append(("nest", "compif-%d" % n, "x = [id for v in id " + "if id " * n + "]\n"))
+        out.append(("nest", "compnest-%d" % n, "x = " + "[" * n + "id" + " for v in id]" * n + "\n"))
+        out.append(("nest", "statements-%d" % n, "x = 1\n" * (n * 20)))
+        out.append(("nest", "semis-%d" % n, "x = 1; " * n + "x = 2\n"))
+        out.append(("nest", "continuation-%d" % n, "x = 1 + \\\n" * n + "1\n"))
+        out.append(("nest", "blanklines-%d" % n, "\n" * n + "x = 1\n" + "\n" * n))
+        out.append(("nest", "comment-%d" % n, "#" + "c" * (n * 100) + "\nx = 1\n"))
+        out.append(("nest", "longname-%d" % n, "v" + "x" * (n * 30) + " = 1\n"))
+        out.append(("nest", "longline-%d" % n, "x = [" + "id, " * (n * 20) + "]\n"))
+        out.append(("nest", "dictitems-%d" % n, "x = {" + ", ".join("%d: %d" % (i, i) for i in range(n * 10)) + "}\n"))
+        out.append(("nest", "setitems-%d" % n, "x = {" + ", ".join("'s%d'" % i for i in range(n * 10)) + "}\n"))
+        out.append(("nest", "slices-%d" % n, "x = id[" + ", ".join(["::"] * n) + "]\n"))
+        out.append(("nest", "walrus-%d" % n, "x = " + "(w := " * n + "1" + ")" * n + "\n"))
+        out.append(("nest", "await-%d" % n, "async def f():\n    return " + "await " * n + "id\n"))
+        out.append(("nest", "yieldparen-%d" % n, "def f():\n    return " + "(yield " * n + "1" + ")" * n + "\n"))
+        out.append(("nest", "starargs-%d" % n, "id(" + ", ".join(["*id"] * n) + ", " + ", ".join(["**id"] * n) + ")\n"))
+        out.append(("nest", "names-%d" % n, "".join("n%d = %d\n" % (i, i) for i in range(n * 10))))
+        out.append(("nest", "strings-%d" % n, "".join("s%d = 's%d'\n" % (i, i) for i in range(n * 10))))
+        if n <= 99:
+            ind = "".join(" " * i + "if id:\n" for i in range(n)) + " " * n + "pass\n"
+            out.append(("nest", "if-%d" % n, ind))
+            out.append(("nest", "def-%d" % n, "".join(" " * i + "def f%d():\n" % i for i in range(n)) + " " * n + "pass\n"))
+            out.append(("nest", "class-%d" % n, "".join(" " * i + "class K%d:\n" % i for i in range(n)) + " " * n + "pass\n"))
+            out.append(("nest", "closure-%d" % n, "".join(" " * i + "def f%d(a%d):\n" % (i, i) for i in range(n)) + " " * n + "return " + " + ".join("a%d" % i for i in range(n)) + "\n"))
+        if n <= 30:
+            out.append(("nest", "for-%d" % n, "".join(" " * i + "for v%d in id:\n" % i for i in range(n)) + " " * n + "pass\n"))
+            out.append(("nest", "while-%d" % n, "".join(" " * i + "while id:\n" for i in range(n)) + " " * n + "break\n"))
+            out.append(("nest", "try-%d" % n, "".join(" " * i + "try:\n" for i in range(n)) + " " * n + "pass\n" + "".join(" " * i + "finally:\n" + " " * (i + 1) + "pass\n" for i in reversed(range(n)))))
+            out.append(("nest", "withnest-%d" % n, "".join(" " * i + "with id:\n" for i in range(n)) + " " * n + "pass\n"))
+            out.append(("nest", "matchnest-%d" % n, "".join("  " * i + "match id:\n" + "  " * i + " case _:\n" for i in range(n)) + "  " * n + "pass\n"))
+    return out
+
+
+def _layout_family():
+    B = []
+    def add(name, data):
+        B.append(("layout", name, data))
+    add("empty", b"")
+    add("nl", b"\n")
+    add("spaces", b"   \n  \n")
+    add("comment-only", b"# c")
+    add("no-eol", b"x = 1")
+    add("crlf", b"x = 1\r\nif x:\r\n    y = 2\r\n")
+    add("cr", b"x = 1\rif x:\r    y = 2\r")
+    add("mixed-eol", b"x = 1\r\ny = 2\nz = 3\r")
+    add("bom", b"\xef\xbb\xbfx = 1\n")
+    add("bom-cookie", b"\xef\xbb\xbf# coding: utf-8\nx = 1\n")
+    add("bom-cookie-latin1", b"\xef\xbb\xbf# coding: latin-1\nx = 1\n")
+    add("cookie-latin1", b"# coding: latin-1\nx = '\xe9'\n")
+    add("cookie-latin1-line2", b"#!/usr/bin/python\n# -*- coding: iso-8859-1 -*-\nx = '\xe9'\n")
+    add("cookie-line3", b"#\n#\n# coding: latin-1\nx = '\xe9'\n")
+    add("cookie-unknown", b"# coding: nonexistent-codec\nx = 1\n")
+    add("cookie-utf16", b"# coding: utf-16\nx = 1\n")
+    add("cookie-cp1252", b"# coding: cp1252\nx = '\x80'\n")
+    add("cookie-ascii-bad", b"# coding: ascii\nx = '\xe9'\n")
+    add("cookie-utf8-bad", b"# coding: utf-8\nx = '\xe9'\n")
+    add("cookie-vim", b"# vim: set fileencoding=latin-1 :\nx = '\xe9'\n")
+    add("nocookie-latin1", b"x = '\xe9'\n")
+    add("utf8-ident", "é = 1\nprint(é)\n".encode("utf8"))
+    add("utf8-ident-nfkc", "ﬁ = 1\nprint(fi)\n".encode("utf8"))
+    add("utf8-ident-cjk", "変数 = 1\nx = 変数\n".encode("utf8"))
+    add("utf8-ident-bad", "x€ = 1\n".encode("utf8"))
+    add("utf8-astral-str", "x = '\U0001f600'\n".encode("utf8"))
+    add("utf8-astral-ident", "\U0001d4d0 = 1\n".encode("utf8"))
+    add("utf8-overlong", b"x = '\xc0\x80'\n")
+    add("utf8-surrogate-bytes", b"x = '\xed\xa0\x80'\n")
+    add("utf8-truncated", b"x = '\xe2\x82'\n")
+    add("utf8-nbsp", "x =\u00a01\n".encode("utf8"))
+    add("utf8-zwsp", "x =\u200b1\n".encode("utf8"))
+    add("utf8-ls", "x = 1\u2028y = 2\n".encode("utf8"))
+    add("utf8-nel", "x = 1\u0085y = 2\n".encode("utf8"))
+    add("utf8-fullwidth-digit", "x = １\n".encode("utf8"))
+    add("utf8-fullwidth-paren", "x = （1）\n".encode("utf8"))
+    add("nul", b"x = 1\x00\n")
+    add("nul-str", b"x = 'a\x00b'\n")
+    add("nul-comment", b"# a\x00b\nx = 1\n")
+    add("ctrl-z", b"x = 1\n\x1a")
+    add("ctrl-chars", b"x = 1\x01\n")
+    add("del-char", b"x = 1\x7f\n")
+    add("ff-start", b"\x0cx = 1\n")
+    add("ff-indent", b"if 1:\n\x0c    x = 1\n")
+    add("ff-mid", b"x = 1\n\x0c\ny = 2\n")
+    add("vt", b"x = 1\n\x0by = 2\n")
+    add("tab-indent", b"if 1:\n\tx = 1\n\ty = 2\n")
+    add("tab-space-same", b"if 1:\n\tx = 1\n        y = 2\n")
+    add("space-tab-mix", b"if 1:\n    x = 1\n\ty = 2\n")
+    add("tab8", b"if 1:\n        x = 1\n\ty = 2\n")
+    add("indent-unexpected", b"x = 1\n    y = 2\n")
+    add("indent-first", b"    x = 1\n")
+    add("dedent-bad", b"if 1:\n        x = 1\n    y = 2\n")
+    add("dedent-comment", b"if 1:\n    x = 1\n  # c\n    y = 2\n")
+    add("dedent-eof", b"if 1:\n    if 2:\n        x = 1")
+    add("indent-continuation", b"x = (1 +\n  2 +\n        3)\n")
+    add("indent-in-brackets", b"x = [\n1,\n    2,\n  3]\n")
+    add("bs-eof", b"x = 1 \\")
+    add("bs-eof-nl", b"x = 1 \\\n")
+    add("bs-space", b"x = 1 \\ \n+ 2\n")
+    add("bs-comment", b"x = 1 \\ # c\n+ 2\n")
+    add("bs-in-comment", b"# c \\\nx = 1\n")
+    add("bs-blank", b"\\\nx = 1\n")
+    add("bs-indent", b"if 1:\n    \\\n    x = 1\n")
+    add("bs-crlf", b"x = 1 + \\\r\n2\r\n")
+    add("bs-in-str", b"x = 'a\\\nb'\n")
+    add("semicolon-only", b";\n")
+    add("semicolons", b"x = 1;;\n")
+    add("semi-start", b"; x = 1\n")
+    add("colon-only", b":\n")
+    add("unterminated-str", b"x = 'abc\n")
+    add("unterminated-triple", b"x = '''abc\n")
+    add("unterminated-fstr", b"x = f'{id\n")
+    add("unterminated-fstr2", b"x = f'{id'\n")
+    add("unterminated-paren", b"x = (1,\n")
+    add("unterminated-bracket-eof", b"x = [")
+    add("unbalanced", b"x = (1]\n")
+    add("close-only", b")\n")
+    add("str-eof", b"'")
+    add("triple-eof", b"'''")
+    add("fstr-eof", b"f'{")
+    add("fstr-brace", b"x = f'}'\n")
+    add("fstr-empty-expr", b"x = f'{}'\n")
+    add("fstr-bang", b"x = f'{id!}'\n")
+    add("fstr-bang-x", b"x = f'{id!x}'\n")
+    add("fstr-nested-same-quote", b"x = f'{id['a']}'\n")
+    add("fstr-backslash-expr", b"x = f'{\"\\n\".join(id)}'\n")
+    add("fstr-comment", b"x = f'{id # c}'\n")
+    add("fstr-lambda", b"x = f'{lambda x: 1}'\n")
+    add("fstr-walrus", b"x = f'{w:=1}'\n")
+    add("fstr-eq-spaces", b"x = f'{ id  =  }'\n")
+    add("fstr-yield", b"def f():\n    return f'{yield}'\n")
+    add("fstr-await", b"async def f():\n    return f'{await id}'\n")
+    add("fstr-dict", b"x = f'{ {1: 2} }'\n")
+    add("fstr-set-comp", b"x = f'{ {i for i in id} }'\n")
+    add("fstr-not-eq", b"x = f'{id!=1}'\n")
+    add("fstr-colon-colon", b"x = f'{id::}'\n")
+    add("fstr-triple-nested", b"x = f'''{f\"\"\"{f'{f\"{1}\"}'}\"\"\"}'''\n")
+    add("fstr-bytes", b"x = bf'{id}'\n")
+    add("fstr-doc", b"def f():\n    f'{id}'\n")
+    add("fstr-doc-module", b"f'doc'\n")
+    add("weird-ops", b"x = 1 <> 2\n")
+    add("backtick", b"x = `1`\n")
+    add("dollar", b"x = $1\n")
+    add("qmark", b"x = ?\n")
+    add("bang", b"x = !1\n")
+    add("at-only", b"@\n")
+    add("arrow-only", b"->\n")
+    add("ellipsis-spaced", b"x = . . .\n")
+    add("dot-only", b".\n")
+    add("walrus-top", b"x := 1\n")
+    add("star-only", b"*\n")
+    add("print-stmt", b"print 1\n")
+    add("print-first-fn", b"print(1, file=None)\n")
+    add("print-later-fn", b"x = 1\nprint(1, file=None)\n")
+    add("exec-stmt", b"exec 'x'\n")
+    add("exec-first-fn", b"exec('x')\n")
+    add("exec-later-fn", b"x = 1\nexec('x')\n")
+    add("py2-except", b"try: pass\nexcept E, e: pass\n")
+    add("py2-raise", b"raise E, 'x'\n")
+    add("py2-octal", b"x = 0777\n")
+    add("py2-long", b"x = 1L\n")
+    add("py2-ur", b"x = ur'a'\n")
+    add("py2-backticks", b"x = `x`\n")
+    add("py2-ne", b"x = 1 <> 2\n")
+    add("cdef-in-py", b"cdef int x = 1\n")
+    add("ctypedef-in-py", b"ctypedef int t\n")
+    add("cimport-in-py", b"cimport cython\n")
+    add("cython-cast-in-py", b"x = <int>1\n")
+    add("include-in-py", b"include 'x.pxi'\n")
+    add("DEF-in-py", b"DEF X = 1\n")
+    add("IF-in-py", b"IF 1:\n    x = 1\n")
+    add("ampersand-in-py", b"x = &y\n")
+    add("sizeof-in-py", b"x = sizeof(int)\n")
+    add("null-in-py", b"x = NULL\n")
+    add("new-in-py", b"x = new Foo()\n")
+    add("directive-comment", b"# cython: language_level=3\nx = 1\n")
+    add("directive-comment-2", b"# cython: language_level=2\nprint 1\n")
+    add("distutils-comment", b"# distutils: language = c++\nx = 1\n")
+    add("tag-comment", b"# tag: x\n# mode: error\nx = 1\n")
+    add("future-unknown", b"from __future__ import nonexistent\n")
+    add("future-braces", b"from __future__ import braces\n")
+    add("future-late", b"x = 1\nfrom __future__ import annotations\n")
+    add("future-all", b"from __future__ import (absolute_import, division, print_function, unicode_literals, generators, nested_scopes, with_statement, generator_stop, annotations)\n")
+    add("flufl", b"from __future__ import barry_as_FLUFL\nx = 1 <> 2\n")
+    add("import-star-func", b"def f():\n    from os import *\n")
+    add("import-dots", b"from .... import x\n")
+    add("import-dot-name", b"import .x\n")
+    add("import-as-dotted", b"import a.b as c.d\n")
+    add("import-cython", b"import cython\n@cython.cfunc\ndef f(x: cython.int) -> cython.int:\n    return x\n")
+    add("annot-str-bad", b"def f(x: 'int[') -> 'not a type': pass\n")
+    add("annot-weird", b"def f(x: 1 + 1, y: [int], z: {1: 2}, *a: (yield)): pass\n")
+    add("annot-lambda", b"def f(x: lambda: 1 = 2): pass\n")
+    add("annot-var-types", b"x: int = 1\ny: float = x\nz: str = 'a'\nw: bytes = b'a'\nv: list = []\nu: dict = {}\nt: tuple = ()\ns: set = set()\n")
+    add("annot-self-ref", b"class K:\n    def f(self) -> K: return self\n")
+    add("annot-forward", b"def f(x: Later): pass\nclass Later: pass\n")
+    add("annot-optional", b"from typing import Optional\ndef f(x: Optional[int] = None): return x\n")
+    add("annot-union-bar", b"def f(x: int | None = None): return x\n")
+    add("annot-generic", b"def f(x: list[int], y: dict[str, list[int]]) -> tuple[int, ...]: return (1,)\n")
+    add("annot-classvar", b"import typing\nclass K:\n    x: typing.ClassVar[int] = 1\n")
+    add("annot-final", b"from typing import Final\nX: Final = 1\n")
+    add("annot-star", b"def f(*args: *tuple[int, ...]): pass\n")
+    add("annot-nested-func", b"def f():\n    x: int\n    def g(): return x\n    return g\n")
+    add("annot-global", b"def f():\n    global x\n    x: int = 1\n")
+    add("annot-attr", b"class K: pass\nK.x: int = 1\n")
+    add("annot-sub", b"d = {}\nd['a']: int = 1\n")
+    add("annot-tuple-target", b"x, y: int = 1, 2\n")
+    add("dunder-debug-assign", b"__debug__ = 1\n")
+    add("none-assign", b"None = 1\n")
+    add("true-del", b"del True\n")
+    add("kw-as-name", b"class = 1\n")
+    add("kw-as-attr", b"x.class = 1\n")
+    add("kw-as-kwarg", b"f(class=1)\n")
+    add("soft-kw-names", b"match = case = type = _ = 1\nprint(match, case, type, _)\n")
+    add("async-name", b"async = 1\n")
+    add("await-name", b"await = 1\n")
+    add("await-outside", b"x = await id\n")
+    add("await-in-def", b"def f():\n    await id\n")
+    add("async-for-outside", b"async for x in id: pass\n")
+    add("async-comp-outside", b"x = [i async for i in id]\n")
+    add("async-comp-in-def", b"def f():\n    return [i async for i in id]\n")
+    add("async-genexp-in-def", b"def f():\n    return (i async for i in id)\n")
+    add("yield-outside", b"yield 1\n")
+    add("yield-in-class", b"class K:\n    yield 1\n")
+    add("yield-in-comp", b"def f():\n    return [(yield) for i in id]\n")
+    add("yield-in-genexp", b"def f():\n    return ((yield) for i in id)\n")
+    add("yield-from-async", b"async def f():\n    yield from id\n")
+    add("return-outside", b"return 1\n")
+    add("return-in-class", b"class K:\n    return 1\n")
+    add("return-value-asyncgen", b"async def f():\n    yield 1\n    return 2\n")
+    add("break-outside", b"break\n")
+    add("continue-outside", b"continue\n")
+    add("break-in-finally", b"for x in id:\n    try: pass\n    finally: break\n")
+    add("continue-in-finally", b"for x in id:\n    try: pass\n    finally: continue\n")
+    add("break-in-def-in-loop", b"for x in id:\n    def f(): break\n")
+    add("break-in-class-in-loop", b"for x in id:\n    class K: break\n")
+    add("nonlocal-module", b"nonlocal x\n")
+    add("nonlocal-nobinding", b"def f():\n    nonlocal x\n")
+    add("nonlocal-global", b"x = 1\ndef f():\n    def g():\n        nonlocal x\n")
+    add("nonlocal-param", b"def f(x):\n    def g(x):\n        nonlocal x\n")
+    add("nonlocal-class", b"def f():\n    x = 1\n    class K:\n        nonlocal x\n        x = 2\n")
+    add("global-param", b"def f(x):\n    global x\n")
+    add("global-after-use", b"def f():\n    print(x)\n    global x\n")
+    add("global-after-assign", b"def f():\n    x = 1\n    global x\n")
+    add("global-nonlocal", b"def f():\n    x = 1\n    def g():\n        global x\n        nonlocal x\n")
+    add("global-class", b"class K:\n    global x\n    x = 1\n")
+    add("global-loop-var", b"def f():\n    global x\n    for x in id: pass\n")
+    add("global-import", b"def f():\n    global os\n    import os\n")
+    add("global-def", b"def f():\n    global g\n    def g(): pass\n")
+    add("global-class-def", b"def f():\n    global K\n    class K: pass\n")
+    add("global-with", b"def f():\n    global w\n    with id as w: pass\n")
+    add("global-except", b"def f():\n    global e\n    try: pass\n    except id as e: pass\n")
+    add("global-walrus", b"def f():\n    global w\n    return (w := 1)\n")
+    add("global-comp-walrus", b"def f():\n    global w\n    return [(w := i) for i in id]\n")
+    add("global-match", b"def f():\n    global m\n    match id:\n        case m: pass\n")
+    add("global-del", b"def f():\n    global d\n    del d\n")
+    add("global-aug", b"def f():\n    global a\n    a += 1\n")
+    add("global-ann", b"def f():\n    global a\n    a: int\n")
+    add("del-undefined", b"del nowhere\n")
+    add("del-local-twice", b"def f():\n    x = 1\n    del x\n    del x\n")
+    add("del-param", b"def f(x):\n    del x\n    return x\n")
+    add("del-closure", b"def f():\n    x = 1\n    def g(): return x\n    del x\n")
+    add("del-call", b"del id()\n")
+    add("del-literal", b"del 1\n")
+    add("del-star", b"del *x\n")
+    add("del-empty-tuple", b"del ()\n")
+    add("del-nested", b"a = b = c = 1\ndel (a, [b, (c,)])\n")
+    add("del-attr-chain", b"del id.a.b.c, id[1][2], id().x\n")
+    add("del-slice", b"del id[1:2, ::3]\n")
+    add("assign-call", b"id() = 1\n")
+    add("assign-literal", b"1 = x\n")
+    add("assign-op", b"x + 1 = 2\n")
+    add("assign-cond", b"(x if y else z) = 1\n")
+    add("assign-genexp", b"(i for i in id) = 1\n")
+    add("assign-comp", b"[i for i in id] = 1\n")
+    add("assign-lambda", b"(lambda: 1) = 1\n")
+    add("assign-fstr", b"f'{x}' = 1\n")
+    add("assign-ellipsis", b"... = 1\n")
+    add("assign-two-star", b"*a, *b = id\n")
+    add("assign-star-alone", b"*a = id\n")
+    add("assign-star-list", b"[*a] = id\n")
+    add("assign-star-many", ", ".join("t%d" % i for i in range(300)).encode() + b", *r = id\n")
+    add("assign-star-257", ", ".join("t%d" % i for i in range(257)).encode() + b", *r = id\n")
+    add("assign-empty-tuple", b"() = id\n")
+    add("assign-empty-list", b"[] = id\n")
+    add("assign-walrus-attr", b"(x.y := 1)\n")
+    add("assign-walrus-sub", b"(x[0] := 1)\n")
+    add("aug-tuple", b"x, y += 1\n")
+    add("aug-list", b"[x] += 1\n")
+    add("aug-call", b"id() += 1\n")
+    add("aug-star", b"*x += 1\n")
+    add("aug-chain", b"x += y += 1\n")
+    add("aug-walrus", b"x += (y := 1)\n")
+    add("aug-all", b"x = 1\nx += 1; x -= 1; x *= 1; x /= 1; x //= 1; x %= 1; x **= 1; x >>= 1; x <<= 1; x &= 1; x ^= 1; x |= 1; x @= 1\n")
+    add("aug-undefined-local", b"def f():\n    x += 1\n")
+    add("aug-attr-call", b"id().x += 1\nid()[id()] += 1\n")
+    add("aug-slice", b"id[1:2] += [1]\nid[::2] *= 2\nid[...] -= 1\nid[1, 2] //= 3\n")
+    add("dup-param", b"def f(x, x): pass\n")
+    add("dup-kwarg", b"id(a=1, a=2)\n")
+    add("dup-param-lambda", b"f = lambda x, x: 1\n")
+    add("param-default-order", b"def f(x=1, y): pass\n")
+    add("param-star-star", b"def f(**k, x): pass\n")
+    add("param-two-star", b"def f(*a, *b): pass\n")
+    add("param-bare-star-end", b"def f(*): pass\n")
+    add("param-bare-star-kwargs", b"def f(*, **k): pass\n")
+    add("param-slash-first", b"def f(/, x): pass\n")
+    add("param-two-slash", b"def f(x, /, y, /): pass\n")
+    add("param-slash-after-star", b"def f(*a, /): pass\n")
+    add("param-kwonly-fwd-default", b"G = 1\ndef f(*, a=G, G=G): return a\n")
+    add("param-kwonly-fwd-default2", b"_KEEP = object()\nclass T:\n    def replace(self, *, name=_KEEP, _KEEP=_KEEP): return name\n")
+    add("param-default-self-ref", b"def f(a, b=a): pass\n")
+    add("param-default-later-global", b"def f(a=later): pass\nlater = 1\n")
+    add("param-default-walrus", b"def f(a=(w := 1)): return a\n")
+    add("param-default-lambda", b"def f(a=lambda: (yield)): return a\n")
+    add("param-default-comp", b"def f(a=[i for i in id], b={i: i for i in id}): return a\n")
+    add("param-named-like-builtin", b"def f(int, len, print): return int(len(print))\n")
+    add("param-named-self", b"class K:\n    def f(): pass\n    def g(*self): pass\n    def h(**self): pass\n")
+    add("call-kw-after-star", b"id(*a, b=1, *c, **d, e=2, **f)\n")
+    add("call-pos-after-kw", b"id(a=1, 2)\n")
+    add("call-pos-after-starstar", b"id(**a, *b)\n")
+    add("call-genexp-two", b"id(i for i in a, 1)\n")
+    add("call-genexp-paren", b"id((i for i in a), 1)\n")
+    add("call-kw-expr", b"id(a.b=1)\n")
+    add("call-kw-literal", b"id(1=2)\n")
+    add("call-kw-none", b"id(None=1)\n")
+    add("call-walrus", b"id(w := 1)\nid(a, w := 1)\nid(k=(w := 1))\n")
+    add("call-walrus-kw-bad", b"id(k=w := 1)\n")
+    add("class-kw-only", b"class K(metaclass=type): pass\n")
+    add("class-two-meta", b"class K(metaclass=type, metaclass=type): pass\n")
+    add("class-genexp-base", b"class K(i for i in id): pass\n")
+    add("class-star-base", b"class K(*id, **id): pass\n")
+    add("class-walrus-base", b"class K(w := id): pass\n")
+    add("class-nested-same-name", b"class K:\n    class K:\n        class K: pass\n")
+    add("class-body-comp-scope", b"class K:\n    a = 1\n    b = [a for _ in id]\n    c = [i for i in [a]]\n")
+    add("class-body-lambda", b"class K:\n    a = 1\n    f = lambda self: a\n")
+    add("class-dunder-class", b"class K:\n    def f(self): return __class__\n    def g(self): return super().g()\n")
+    add("class-private", b"class K:\n    __x = 1\n    def f(self): return self.__x + __y\n")
+    add("class-slots-str", b"class K:\n    __slots__ = 'a'\n")
+    add("class-del-attr", b"class K:\n    x = 1\n    del x\n")
+    add("class-return-annotation", b"class K:\n    x: int\n    y: 'K' = None\n")
+    add("class-prepare", b"class M(type):\n    @classmethod\n    def __prepare__(m, n, b): return {}\nclass K(metaclass=M): pass\n")
+    add("class-in-func-closure", b"def f(x):\n    class K:\n        y = x\n        def g(self): return x\n    return K\n")
+    add("class-global-stmt-method", b"class K:\n    def f(self):\n        global K\n        K = 1\n")
+    add("decorator-walrus", b"@(w := id)\ndef f(): pass\n")
+    add("decorator-subscript", b"@id[0]\ndef f(): pass\n")
+    add("decorator-lambda", b"@lambda f: f\ndef f(): pass\n")
+    add("decorator-call-chain", b"@id()()[0].x\ndef f(): pass\n")
+    add("decorator-cond", b"@id if id else id\ndef f(): pass\n")
+    add("decorator-await", b"async def g():\n    @await id\n    def f(): pass\n")
+    add("decorator-comp-func", b"@[i for i in id][0]\ndef f(): pass\n")
+    add("decorator-comp-class", b"@[i for i in id][0]\nclass K: pass\n")
+    add("decorator-genexp-class", b"@(i for i in id)\nclass K: pass\n")
+    add("decorator-on-assign", b"@id\nx = 1\n")
+    add("decorator-alone", b"@id\n")
+    add("lambda-defaults", b"f = lambda a, b=1, *c, d, e=2, **g: (a, b, c, d, e, g)\n")
+    add("lambda-posonly", b"f = lambda a, /, b: a\n")
+    add("lambda-annot", b"f = lambda a: int: a\n")
+    add("lambda-yield", b"f = lambda: (yield)\n")
+    add("lambda-await", b"async def g():\n    return lambda: await id\n")
+    add("lambda-walrus", b"f = lambda: (w := 1)\n")
+    add("lambda-in-default", b"f = lambda a=lambda b=lambda: 1: b: a\n")
+    add("lambda-star-only", b"f = lambda *: 1\n")
+    add("lambda-in-class-default", b"class K:\n    a = 1\n    f = lambda self, b=a: b\n")
+    add("comp-scope-leak", b"x = [i for i in id]\nprint(i)\n")
+    add("comp-walrus-iter", b"x = [i for i in (w := id)]\n")
+    add("comp-walrus-rebind", b"x = [i := 1 for i in id]\n")
+    add("comp-walrus-class", b"class K:\n    x = [(w := i) for i in id]\n")
+    add("comp-nested-walrus", b"x = [[(w := j) for j in i] for i in id]\nprint(w)\n")
+    add("comp-cond-expr", b"x = [i if i else 0 for i in id if i if not i]\n")
+    add("comp-lambda-cond", b"x = [i for i in id if (lambda: i)()]\n")
+    add("comp-star", b"x = [*i for i in id]\n")
+    add("comp-dict-star", b"x = {**i for i in id}\n")
+    add("comp-tuple-unparen", b"x = [i, j for i in id]\n")
+    add("comp-target-attr", b"x = [1 for id.a in id]\n")
+    add("comp-target-sub", b"x = [1 for id[0] in id]\n")
+    add("comp-target-star", b"x = [a for *a, b in id]\n")
+    add("comp-await", b"async def f():\n    return [await i for i in id], {await i: await i for i in id}, {await i async for i in id}\n")
+    add("comp-in-default-class", b"class K:\n    a = 1\n    def f(self, b=[a for _ in id]): pass\n")
+    add("genexp-call-kw", b"id(i for i in id, k=1)\n")
+    add("genexp-class-body", b"class K:\n    a = 1\n    g = (a for _ in id)\n")
+    add("try-bare-not-last", b"try: pass\nexcept: pass\nexcept E: pass\n")
+    add("try-else-no-except", b"try: pass\nelse: pass\n")
+    add("try-alone", b"try: pass\n")
+    add("try-star-mixed", b"try: pass\nexcept* A: pass\nexcept B: pass\n")
+    add("try-star-bare", b"try: pass\nexcept*: pass\n")
+    add("try-star-return", b"def f():\n    try: pass\n    except* A: return\n")
+    add("try-star-break", b"for x in id:\n    try: pass\n    except* id: break\n")
+    add("try-star-valid", b"try: pass\nexcept* id as e: raise\nexcept* (id, id): pass\nelse: pass\nfinally: pass\n")
+    add("try-except-star-space", b"try: pass\nexcept *id: pass\n")
+    add("try-return-finally", b"def f():\n    try: return 1\n    finally: return 2\n")
+    add("try-yield-finally", b"def f():\n    try: yield 1\n    finally: yield 2\n")
+    add("try-nested-raise-from", b"try:\n    try: raise id\n    except id as e: raise id from e\n    finally: del e\nexcept* id: pass\n")
+    add("try-except-del-name", b"try: pass\nexcept id as e: del e\nprint(e)\n")
+    add("try-except-same-name", b"e = 1\ntry: pass\nexcept id as e: pass\nprint(e)\n")
+    add("try-except-nonname", b"try: pass\nexcept id as e.x: pass\n")
+    add("try-except-tuple-noparen", b"try: pass\nexcept A, B: pass\n")
+    add("raise-from-none", b"raise id from None\n")
+    add("raise-from-only", b"raise from id\n")
+    add("raise-three", b"raise id, id, id\n")
+    add("raise-in-finally-bare", b"try: pass\nfinally: raise\n")
+    add("raise-class-call", b"raise ValueError('x') from TypeError\n")
+    add("assert-tuple", b"assert (1, 'msg')\n")
+    add("assert-walrus", b"assert (w := id), w\n")
+    add("assert-lambda", b"assert lambda: 1, lambda: 2\n")
+    add("with-paren-trailing", b"with (id as a, id as b,): pass\n")
+    add("with-paren-noas", b"with (id, id): pass\n")
+    add("with-paren-mixed", b"with (id, id as b): pass\n")
+    add("with-paren-tuple-as", b"with (id, id) as t: pass\n")
+    add("with-target-star", b"with id as (a, *b): pass\n")
+    add("with-target-attr", b"with id as id.x, id as id[0]: pass\n")
+    add("with-target-call", b"with id as f(): pass\n")
+    add("with-target-literal", b"with id as 1: pass\n")
+    add("with-empty", b"with : pass\n")
+    add("with-walrus", b"with (w := id): pass\n")
+    add("with-yield", b"def f():\n    with (yield) as a, (yield a): pass\n")
+    add("with-await", b"async def f():\n    async with await id as a, id as b: pass\n    with await id: pass\n")
+    add("with-return", b"def f():\n    with id:\n        return 1\n")
+    add("with-break-continue", b"for x in id:\n    with id:\n        if x: break\n        continue\n")
+    add("for-else-break", b"for x in id:\n    break\nelse:\n    pass\n")
+    add("for-target-call", b"for f() in id: pass\n")
+    add("for-target-literal", b"for 1 in id: pass\n")
+    add("for-target-attr-sub", b"for id.a, id[0] in id: pass\n")
+    add("for-target-nested-star", b"for a, (b, *c), [d, e] in id: pass\n")
+    add("for-iter-star", b"for x in *id, *id: pass\n")
+    add("for-iter-lambda", b"for x in lambda: 1: pass\n")
+    add("for-iter-yield", b"def f():\n    for x in (yield): pass\n")
+    add("for-iter-walrus", b"for x in (w := id): pass\n")
+    add("for-in-in", b"for x in id in id: pass\n")
+    add("for-range-forms", b"for i in range(10): pass\nfor i in range(1, 10): pass\nfor i in range(10, 0, -1): pass\nfor i in range(0, 10, 0): pass\n")
+    add("for-range-float", b"for i in range(1.5): pass\n")
+    add("for-range-kw", b"for i in range(stop=3): pass\n")
+    add("for-enumerate-forms", b"for i, x in enumerate(id): pass\nfor i, x in enumerate(id, 1): pass\nfor i, x in enumerate(id, start=1): pass\n")
+    add("for-zip-reversed-sorted", b"for a, b in zip(id, id): pass\nfor a in reversed(id): pass\nfor a in sorted(id): pass\nfor k in id.keys(): pass\nfor k, v in id.items(): pass\n")
+    add("for-dict-iter-forms", b"d = {}\nfor k in d: pass\nfor k, v in d.items(): pass\nfor k in d.keys(): pass\nfor v in d.values(): pass\nfor x in d.iteritems(): pass\n")
+    add("for-str-bytes-iter", b"for c in 'abc': pass\nfor b in b'abc': pass\nfor x in (1, 2, 3): pass\nfor x in [1, 2]: pass\nfor x in {1, 2}: pass\nfor x in {1: 2}: pass\nfor x in (): pass\nfor x in '': pass\nfor x in []: pass\n")
+    add("while-else-continue", b"while id:\n    continue\nelse:\n    pass\n")
+    add("while-walrus", b"while (w := id()) is not None: pass\n")
+    add("while-const", b"while 1: break\nwhile 0: pass\nwhile True: break\nwhile None: pass\nwhile 'a': break\nwhile (): pass\n")
+    add("if-const", b"if 0: x = 1\nelif 1: x = 2\nelse: x = 3\nif __debug__: pass\nif not __debug__: pass\nif None: pass\nif ...: pass\nif 'a' 'b': pass\nif (): pass\nif 1.0: pass\nif 0j: pass\n")
+    add("if-walrus-chain", b"if (a := id) and (b := a) or (c := b): pass\n")
+    add("if-in-tuple", b"if id in (1, 2, 3): pass\nif id not in ('a', 'b'): pass\nif id in (): pass\nif id in [1]: pass\nif id in {1, 2}: pass\nif id in 'abc': pass\nif id in b'abc': pass\nif id in (id, id()): pass\nif id in (1, 'a', None, 1.5, b'x'): pass\n")
+    add("match-no-case", b"match id:\n    pass\n")
+    add("match-irrefutable-first", b"match id:\n    case x: pass\n    case 1: pass\n")
+    add("match-or-different-names", b"match id:\n    case [x] | [y]: pass\n")
+    add("match-dup-names", b"match id:\n    case [x, x]: pass\n")
+    add("match-two-stars", b"match id:\n    case [*a, *b]: pass\n")
+    add("match-map-rest-wild", b"match id:\n    case {**_}: pass\n")
+    add("match-map-dup-key", b"match id:\n    case {1: a, 1: b}: pass\n")
+    add("match-map-expr-key", b"match id:\n    case {1 + 1: a}: pass\n")
+    add("match-map-rest-middle", b"match id:\n    case {**r, 1: a}: pass\n")
+    add("match-class-dup-kw", b"match id:\n    case int(a=1, a=2): pass\n")
+    add("match-class-pos-after-kw", b"match id:\n    case int(a=1, 2): pass\n")
+    add("match-neg-str", b"match id:\n    case -'a': pass\n")
+    add("match-complex-forms", b"match id:\n    case 1 + 2j | 1 - 2j | -1 + 2j | -1.5 - 0j | 0j | -0.0: pass\n")
+    add("match-complex-bad", b"match id:\n    case 1j + 2: pass\n")
+    add("match-complex-bad2", b"match id:\n    case 1 + 2: pass\n")
+    add("match-fstring", b"match id:\n    case f'{x}': pass\n")
+    add("match-strcat", b"match id:\n    case 'a' 'b' | b'a' b'b': pass\n")
+    add("match-strcat-mixed", b"match id:\n    case 'a' b'b': pass\n")
+    add("match-value-deep", b"match id:\n    case a.b.c.d: pass\n")
+    add("match-value-call", b"match id:\n    case a.b(): pass\n")
+    add("match-keyword-subject", b"match match:\n    case case: pass\n")
+    add("match-as-name", b"match = 1\nmatch\nmatch()\nmatch[0]\nmatch.x\nmatch - 1\nmatch * 2\nmatch: int = 1\n")
+    add("match-call-colon", b"match(id): pass\n") 
+    add("match-star-subject", b"match *id, id:\n    case [*_]: pass\n")
+    add("match-star-alone", b"match *id:\n    case _: pass\n")
+    add("match-walrus-subject", b"match (w := id):\n    case _: pass\n")
+    add("match-guard-walrus", b"match id:\n    case x if (w := x) > 1: pass\n")
+    add("match-as-wild", b"match id:\n    case _ as x: pass\n")
+    add("match-as-as", b"match id:\n    case (1 as a) as b: pass\n")
+    add("match-as-nonname", b"match id:\n    case 1 as a.b: pass\n")
+    add("match-as-underscore", b"match id:\n    case 1 as _: pass\n")
+    add("match-paren-star", b"match id:\n    case (*a,): pass\n    case (*a): pass\n")
+    add("match-group-seq", b"match id:\n    case (a): pass\n")
+    add("match-none-true", b"match id:\n    case None | True | False: pass\n")
+    add("match-dotted-keyword", b"match id:\n    case a.match.case: pass\n")
+    add("match-in-class-def-loop", b"class K:\n    for i in id:\n        match i:\n            case 1: break\n            case 2: continue\n            case _:\n                def f(): return i\n")
+    add("match-def-in-case", b"match id:\n    case 1:\n        def f(): pass\n    case 2:\n        class K: pass\n    case 3:\n        import os\n    case 4:\n        global g\n        g = lambda: 1\n")
+    add("match-return-yield", b"def f():\n    match (yield):\n        case 1: return (yield)\n        case x: yield x\n")
+    add("match-await", b"async def f():\n    match await id:\n        case x if await x: return await x\n")
+    add("match-many-captures", b"match id:\n    case [" + b", ".join(b"c%d" % i for i in range(300)) + b"]: pass\n")
+    add("match-mapping-many", b"match id:\n    case {" + b", ".join(b"%d: k%d" % (i, i) for i in range(200)) + b", **rest}: pass\n")
+    add("match-class-many", b"match id:\n    case int(" + b", ".join(b"a%d=%d" % (i, i) for i in range(200)) + b"): pass\n")
+    add("type-alias", b"type X = int\n")
+    add("type-alias-generic", b"type X[T, *Ts, **P] = tuple[T, *Ts]\n")
+    add("type-as-name", b"type = 1\ntype(1)\ntype X = int\ntype: int = 1\n")
+    add("generic-def", b"def f[T](x: T) -> T: return x\n")
+    add("generic-class", b"class K[T: int, U: (str, bytes)]: pass\n")
+    add("generic-dup", b"def f[T, T](): pass\n")
+    add("generic-empty", b"def f[](): pass\n")
+    add("generic-yield-bound", b"def g():\n    def f[T: (yield)](): pass\n")
+    add("generic-method", b"class K:\n    def f[T](self, x: T) -> T: return x\n")
+    add("star-expr-alone", b"*id\n")
+    add("star-expr-assign", b"x = *id\n")
+    add("star-expr-paren", b"x = (*id)\n")
+    add("star-expr-return", b"def f(): return *id, 1\n")
+    add("star-expr-yield", b"def f(): yield *id, 1\n")
+    add("star-expr-index", b"x = id[*id]\ny = id[*id, 1]\nid[*id] = 1\ndel id[*id]\n")
+    add("star-expr-slice", b"x = id[*id:1]\n")
+    add("star-expr-for", b"for x in *id, 1: pass\n")
+    add("star-expr-cond", b"x = *id if id else id,\n")
+    add("star-expr-double", b"x = **id\n")
+    add("star-in-set-dict", b"x = {*id, *id}\ny = {**id, **id, 'a': 1}\nz = {*id: 1}\n")
+    add("star-in-call-many", b"id(*id, *id, id, *id, k=id, **id, **id)\n")
+    add("star-in-print", b"print(*id, sep='')\n")
+    add("dict-star-bad", b"x = {**id: 1}\n")
+    add("dict-mixed-set", b"x = {1: 2, 3}\n")
+    add("dict-trailing", b"x = {1: 2,}\ny = {1,}\nz = {*id,}\nw = {**id,}\n")
+    add("dict-dup-keys", b"x = {1: 1, 1: 2, 1.0: 3, True: 4, 'a': 1, 'a': 2}\n")
+    add("set-dup", b"x = {1, 1, 1.0, True}\n")
+    add("set-unhashable", b"x = {[], {}}\ny = {[]: 1}\n")
+    add("slice-forms", b"x = id[:]\nx = id[::]\nx = id[1:]\nx = id[:1]\nx = id[1:2]\nx = id[1:2:3]\nx = id[::3]\nx = id[:, :]\nx = id[..., 1]\nx = id[1:2, ::3, ...]\nx = id[()]\nx = id[(1, 2)]\nx = id[1,]\nx = id[:,]\n")
+    add("slice-walrus", b"x = id[w := 1]\ny = id[a:=1, b:=2]\n")
+    add("slice-walrus-bad", b"x = id[w := 1 : 2]\n")
+    add("slice-lambda", b"x = id[lambda: 1 : 2]\n")
+    add("slice-assign-forms", b"id[:] = id\nid[1:2] = id\nid[::2] = id\ndel id[:]\nid[1:2] += id\n")
+    add("slice-huge", b"x = id[-9223372036854775809:9223372036854775808:18446744073709551616]\n")
+    add("slice-const-seq", b"x = 'abcdef'[1:3]\ny = (1, 2, 3)[::2]\nz = [1, 2, 3][-1]\nw = b'abc'[0]\nv = 'abc'[10:20]\nu = (1, 2)[1:2:0]\n")
+    add("attr-on-literal", b"x = 1 .real\ny = 1.0.real\nz = 1..real\nw = 1j.imag\nv = 'a'.upper()\nu = b'a'.decode()\nt = (1).bit_length()\ns = [].append\nr = {}.get\nq = ().count\np = None.__class__\no = ....__class__\nn = True.real\n")
+    add("attr-int-dot", b"x = 1.real\n")
+    add("attr-keyword", b"x = id.None\n")
+    add("attr-soft-keyword", b"x = id.match.case.type._\n")
+    add("attr-private-outside", b"x = id.__x\n")
+    add("num-underscore-bad", b"x = 1__0\n")
+    add("num-underscore-end", b"x = 1_\n")
+    add("num-underscore-start", b"x = _1\n")
+    add("num-underscore-dot", b"x = 1_.0\n")
+    add("num-underscore-exp", b"x = 1e_1\n")
+    add("num-underscore-prefix", b"x = 0_x1\n")
+    add("num-underscore-after-prefix", b"x = 0x_1\n")
+    add("num-leading-zero", b"x = 01\n")
+    add("num-leading-zero-float", b"x = 01.5\ny = 01e1\nz = 01j\nw = 00.0\nv = 0_0_1.0\n")
+    add("num-leading-zero-under", b"x = 0_1\n")
+    add("num-hex-float", b"x = 0x1.8p3\n")
+    add("num-hex-empty", b"x = 0x\n")
+    add("num-bin-2", b"x = 0b12\n")
+    add("num-oct-8", b"x = 0o18\n")
+    add("num-upper-prefix", b"x = 0XFF + 0O17 + 0B11\n")
+    add("num-exp-forms", b"x = 1e1 + 1E1 + 1e+1 + 1e-1 + 1.e1 + .1e1 + 1_0e1_0 + 0e0 + 0.e0\n")
+    add("num-exp-empty", b"x = 1e\n")
+    add("num-exp-sign-only", b"x = 1e+\n")
+    add("num-imag-forms", b"x = 1j + 1J + 1.j + .1j + 1e1j + 1_0j + 0j + 00j + 0_0j + 1.5e-3J\n")
+    add("num-imag-hex", b"x = 0x1j\n")
+    add("num-suffix-l", b"x = 1l\n")
+    add("num-suffix-u", b"x = 1u\n")
+    add("num-suffix-f", b"x = 1.0f\n")
+    add("num-ident-adjacent", b"x = 1if 1else 2\n")
+    add("num-ident-adjacent2", b"x = 1 if 1else 2\n")
+    add("num-and", b"x = 1and 2\n")
+    add("num-in", b"x = 1in (1,)\n")
+    add("num-is", b"x = 1is 1\n")
+    add("num-or", b"x = 0or 1\n")
+    add("num-hex-or", b"x = 0xfor 1\n")
+    add("num-dot-dot", b"x = 1...real\n")
+    add("num-huge-exp", b"x = 1e1000000000000\ny = 1e-1000000000000\n")
+    add("num-float-precision", b"x = 0.1000000000000000055511151231257827021181583404541015625\ny = 123456789012345678901234567890.123456789012345678901234567890e-30\nz = 1.7976931348623157e308\nw = 1.7976931348623159e308\nv = 4.9406564584124654e-324\nu = 2.4703282292062327e-324\n")
+    add("num-int-boundaries", b"a = 2147483647\nb = 2147483648\nc = -2147483648\nd = -2147483649\ne = 4294967295\nf = 4294967296\ng = 9223372036854775807\nh = 9223372036854775808\ni = -9223372036854775808\nj = -9223372036854775809\nk = 18446744073709551615\nl = 18446744073709551616\nm = 340282366920938463463374607431768211456\n")
+    add("num-int-boundaries-ops", b"a = 2147483647 + 1\nb = -2147483648 - 1\nc = 9223372036854775807 + 1\nd = -9223372036854775808 - 1\ne = 4611686018427387904 * 2\nf = -9223372036854775808 // -1\ng = -9223372036854775808 % -1\nh = abs(-9223372036854775808)\ni = -(-9223372036854775808)\nj = 1 << 63\nk = 1 << 64\nl = -1 << 63\nm = -1 >> 100\nn = 9223372036854775807 << 1\n")
+    add("str-prefix-all", b"a = u'a'; b = U'a'; c = r'a'; d = R'a'; e = b'a'; f = B'a'; g = br'a'; h = Br'a'; i = bR'a'; j = BR'a'; k = rb'a'; l = rB'a'; m = Rb'a'; n = RB'a'; o = f'a'; p = F'a'; q = fr'a'; r = Fr'a'; s = fR'a'; t = FR'a'; u = rf'a'; v = rF'a'; w = Rf'a'; x = RF'a'\n")
+    add("str-prefix-bad-ub", b"x = ub'a'\n")
+    add("str-prefix-bad-uf", b"x = uf'a'\n")
+    add("str-prefix-bad-bf", b"x = bf'a'\n")
+    add("str-prefix-bad-rr", b"x = rr'a'\n")
+    add("str-prefix-bad-c", b"x = c'a'\n")
+    add("str-prefix-space", b"x = b 'a'\n")
+    add("str-concat-mixed", b"x = 'a' b'b'\n")
+    add("str-concat-f-b", b"x = f'a' b'b'\n")
+    add("str-concat-u-f-r", b"x = u'a' f'{id}' r'\\d' 'b' F'{id!r}' R'\\\\'\n")
+    add("str-concat-lines", b"x = ('a'\n     'b'\n     # c\n     f'{id}'\n\n     'c')\n")
+    add("str-nonascii-bytes", "x = b'é'\n".encode("utf8"))
+    add("str-nonascii-bytes-raw", "x = rb'é'\n".encode("utf8"))
+    add("str-newline-in-single", b"x = 'a\nb'\n")
+    add("str-cr-in-triple", b"x = '''a\rb\r\nc'''\n")
+    add("str-tab-ff", b"x = 'a\tb\x0cc'\n")
+    add("str-quote-mix", b"x = '\"' \"'\" '''\"\"\"''' \"\"\"'''\"\"\" '\\'' \"\\\"\"\n")
+    add("str-triple-quote-end", b"x = ''''a'''\ny = '''a\\''''\nz = \"\"\"\"a\"\"\"\n")
+    add("str-triple-four", b"x = ''''''\ny = '''''''\n")
+    add("str-empty-forms", b"x = ''; y = \"\"; z = ''''''; w = \"\"\"\"\"\"; v = b''; u = f''; t = r''; s = rb''; r = '' ''; q = f'' ''\n")
+    add("str-percent-forms", b"x = '%s %d %r %5.2f %% %(a)s %c %x %o %e %g %i %u %a %-5s %+d %05d %#x %*d %.*f' % id\n")
+    add("str-percent-const", b"x = '%s' % 1\ny = '%d' % 'a'\nz = '%s %s' % (1,)\nw = '%' % ()\nv = '%z' % 1\nu = '%(a)s' % {'a': 1}\nt = b'%s' % b'a'\ns = b'%d' % 1\nr = '%c' % 0x110000\nq = '%s' % (1, 2)\n")
+    add("str-format-forms", b"x = '{} {0} {a} {0.x} {0[0]} {!r} {:>10} {:{}} {{}} {a!s:^{b}}'.format(id)\n")
+    add("str-long-line", b"x = '" + b"a" * 70000 + b"'\n")
+    add("str-long-bytes", b"x = b'" + b"\\x00" * 20000 + b"'\n")
+    add("str-many-backslash", b"x = '" + b"\\\\" * 20000 + b"'\n")
+    add("str-many-quotes", b"x = '" + b"\\'" * 20000 + b"'\n")
+    add("str-many-newlines", b"x = '''" + b"\n" * 20000 + b"'''\n")
+    add("str-many-trigraph", b"x = '" + b"??/" * 5000 + b"'\n")
+    add("str-many-nonascii", ("x = '" + "é€\U0001f600" * 5000 + "'\n").encode("utf8"))
+    add("str-many-concat", b"x = (" + b"'a' " * 5000 + b")\n")
+    add("str-many-fields", b"x = f'" + b"{id}" * 2000 + b"'\n")
+    add("str-many-nul", b"x = '" + b"\\0" * 5000 + b"'\n")
+    add("str-all-latin1-escapes", b"x = '" + b"".join(b"\\x%02x" % i for i in range(256)) + b"'\ny = b'" + b"".join(b"\\x%02x" % i for i in range(256)) + b"'\n")
+    add("str-all-octal-escapes", b"x = '" + b"".join(b"\\%o" % i for i in range(512)) + b"'\n")
+    add("str-bmp-sample", ("x = '" + "".join(chr(c) for c in range(0xa0, 0x3000, 7) if not 0xd800 <= c < 0xe000) + "'\n").encode("utf8"))
+    add("str-line-sep-chars", "x = 'a\u2028b\u2029c\u0085d\x1ce\x1df\x1eg'\n".encode("utf8"))
+    add("str-docstring-forms", b"'''module doc'''\ndef f():\n    \"\"\"f doc\"\"\"\nclass K:\n    'K doc'\n    def m(self):\n        r'''raw doc \\d'''\n    def n(self):\n        u'u doc'\n")
+    add("str-docstring-concat", b"'a' 'b'\ndef f():\n    'a' 'b'\n")
+    add("str-docstring-expr", b"'a'.upper()\n")
+    add("str-docstring-expr-func", b"def f():\n    'a'.upper()\n")
+    add("str-docstring-expr-class", b"class K:\n    'a' + 'b'\n")
+    add("str-docstring-percent", b"'%s' % id\nx = 1\n")
+    add("str-docstring-tuple", b"'a', 'b'\n")
+    add("str-docstring-semicolon", b"'a'; x = 1\n")
+    add("str-docstring-paren", b"('a')\ndef f():\n    ('doc')\n")
+    add("str-docstring-bytes-module", b"b'a'\n")
+    add("str-docstring-bytes-class", b"class K:\n    b'a'\n")
+    add("str-docstring-fstring-func", b"def f():\n    f'a'\n")
+    add("str-docstring-nonascii", "'é€'\ndef f():\n    'é€'\n".encode("utf8"))
+    add("str-docstring-nul", b"'a\\0b'\ndef f():\n    'a\\0b'\n")
+    add("str-docstring-surrogate-func", b"def f():\n    '\\ud800'\n")
+    add("str-docstring-surrogate-class", b"class K:\n    '\\udfff'\n")
+    add("str-docstring-long", b"'''" + b"doc line\n" * 5000 + b"'''\n")
+    add("str-docstring-trigraph", b"'??/ */ /* \\\\ \"'\ndef f():\n    '*/ /* ??)'\n")
+    return B
+
+
+def lit_family(tier):
+    """[(family, name, bytes)]: literal-focused, deeply nested and oddly laid-out texts.  Validity is decided by CPython."""
+    out = []
+    for fam, name, text in _esc_family() + _num_family() + _nest_family(tier):
+        out.append((fam, name, text.encode("utf8", "surrogatepass") if isinstance(text, str) else text))
+    out.extend(_layout_family())
+    return out
+
+
+# --------------------------------------------------------------------------
+# P in a child process (CPython's own compiler can overflow the C stack on deeply nested input)
+
+_P_CHILD = r'''
+import sys, json, base64, warnings, ast
+sys.setrecursionlimit(1000)
+items = json.load(open(sys.argv[1]))
+out = open(sys.argv[2], "a")
+
+TYPED = (ast.Constant, ast.List, ast.Tuple, ast.Set, ast.Dict, ast.ListComp, ast.SetComp, ast.DictComp, ast.GeneratorExp,
+         ast.JoinedStr, ast.Lambda)
+
+def typed(n):
+    if isinstance(n, TYPED):
+        return True
+    if isinstance(n, ast.UnaryOp):
+        return typed(n.operand)
+    if isinstance(n, ast.BinOp):
+        return typed(n.left) or typed(n.right)
+    if isinstance(n, ast.Compare) or isinstance(n, ast.BoolOp):
+        return True
+    if isinstance(n, ast.IfExp):
+        return typed(n.body) or typed(n.orelse)
+    if isinstance(n, ast.NamedExpr):
+        return typed(n.value)
+    return False
+
+def operands(n):
+    # expressions in positions where the compiler type-checks a value of known type
+    if isinstance(n, ast.Call):
+        yield n.func
+        for a in n.args: yield a          # builtins are type-checked on literal arguments
+    elif isinstance(n, (ast.Subscript, ast.Attribute, ast.Starred, ast.Await, ast.YieldFrom)):
+        yield n.value
+    elif isinstance(n, ast.UnaryOp):
+        yield n.operand
+    elif isinstance(n, ast.BinOp):
+        yield n.left; yield n.right
+    elif isinstance(n, ast.AugAssign):
+        yield n.value
+    elif isinstance(n, ast.Compare):
+        yield n.left
+        for c in n.comparators: yield c
+    elif isinstance(n, (ast.For, ast.AsyncFor, ast.comprehension)):
+        yield n.iter
+    elif isinstance(n, (ast.With, ast.AsyncWith)):
+        for it in n.items: yield it.context_expr
+    elif isinstance(n, ast.Raise):
+        if n.exc is not None: yield n.exc
+        if n.cause is not None: yield n.cause
+    elif isinstance(n, ast.ExceptHandler):
+        if n.type is not None: yield n.type
+    elif isinstance(n, (ast.FunctionDef, ast.AsyncFunctionDef, ast.ClassDef)):
+        for d in n.decorator_list: yield d
+        if isinstance(n, ast.ClassDef):
+            for b in n.bases: yield b
+    elif isinstance(n, ast.Assign) and len(n.targets) == 1 and isinstance(n.targets[0], (ast.Tuple, ast.List)):
+        yield n.value                     # unpacking a value of known type / length
+    elif isinstance(n, ast.AnnAssign) and n.value is not None:
+        yield n.value                     # annotation typing: the value is checked against the annotation
+
+def features(data):
+    tree = ast.parse(data)
+    names = set()
+    typedop = False
+    for n in ast.walk(tree):
+        names.add(type(n).__name__)
+        if not typedop:
+            for o in operands(n):
+                if typed(o):
+                    typedop = True
+                    break
+    return typedop, sorted(names)
+
+for i, b in items:
+    data = base64.b64decode(b)
+    out.write(json.dumps([i, "start"]) + "\n"); out.flush()
+    try:
+        with warnings.catch_warnings():
+            warnings.simplefilter("ignore")
+            compile(data, "<c43>", "exec", dont_inherit=True)
+            try:
+                typedop, names = features(data)
+            except (RecursionError, MemoryError, ValueError, SyntaxError):
+                typedop, names = True, []
+        v = [i, True, "", typedop, names]
+    except SyntaxError as e:
+        v = [i, False, "SyntaxError: %s" % (e.msg,), False, []]
+    except (ValueError, OverflowError, RecursionError, MemoryError, UnicodeError) as e:
+        v = [i, False, "%s: %s" % (type(e).__name__, str(e)[:80]), False, []]
+    out.write(json.dumps(v) + "\n"); out.flush()
+'''
+
+
+def cpython_verdicts(datas, workdir, tag="p"):
+    """{index: (valid, reason, typed_operand, ast node names)} for a list of byte strings; a text on which CPython
+    itself dies counts as not compiled.  typed_operand: some operation is applied to a value whose type is known at
+    compile time (literal, display, comprehension, ...) -- the compiler may type-check such code (see c43.py)."""
+    import base64, json, subprocess
+    os.makedirs(workdir, exist_ok=True)
+    drv = os.path.join(workdir, "c43_pchild.py")
+    with open(drv, "w") as f:
+        f.write(_P_CHILD)
+    todo = [(i, base64.b64encode(d).decode("ascii")) for i, d in enumerate(datas)]
+    res = {}
+    rounds = 0
+    while todo:
+        rounds += 1
+        inf = os.path.join(workdir, "%s_in%d.json" % (tag, rounds))
+        outf = os.path.join(workdir, "%s_out%d.ndjson" % (tag, rounds))
+        with open(inf, "w") as f:
+            json.dump(todo, f)
+        if os.path.exists(outf):
+            os.unlink(outf)
+        try:
+            subprocess.run([sys.executable, drv, inf, outf], capture_output=True, timeout=1800)
+        except subprocess.TimeoutExpired:
+            pass
+        started = None
+        if os.path.exists(outf):
+            for line in open(outf):
+                try:
+                    v = json.loads(line)
+                except ValueError:
+                    continue
+                if v[1] == "start":
+                    started = v[0]
+                else:
+                    res[v[0]] = (v[1], v[2], v[3], v[4])
+                    started = None
+        rest = [t for t in todo if t[0] not in res]
+        if not rest:
+            break
+        dead = started if started is not None else rest[0][0]
+        res[dead] = (False, "CPython died", False, [])
+        todo = [t for t in rest if t[0] != dead]
+        if rounds > 50:
+            raise RuntimeError("CPython oracle child keeps dying")
+    return res
+
+
+# --------------------------------------------------------------------------
+# corpus: the interpreter's own library as ready-made valid Python
+
+def stdlib_dir():
+    import sysconfig
+    return sysconfig.get_paths()["stdlib"]
+
+SYNTAX_TESTS = ["test_grammar", "test_syntax", "test_fstring", "test_patma", "test_named_expressions", "test_unpack_ex",
+                "test_positional_only_arg", "test_string_literals", "test_keywordonlyarg", "test_genexps", "test_decorators",
+                "test_with", "test_except_star", "test_type_params", "test_type_aliases", "test_unicode_identifiers", "test_scope",
+                "test_global", "test_generators", "test_coroutines", "test_asyncgen", "test_class", "test_augassign", "test_long",
+                "test_float", "test_compile", "test_dictcomps", "test_setcomps", "test_pep646_syntax", "test_listcomps",
+                "test_exceptions", "test_raise", "test_opcodes", "test_unary", "test_binop", "test_bool", "test_contains",
+                "test_slice", "test_int_literal", "test_complex", "test_tokenize", "test_ast", "test_dis", "test_inspect"]
+
+
+def corpus_files():
+    lib = stdlib_dir()
+    files = sorted(glob.glob(os.path.join(lib, "*.py")))
+    for e in SYNTAX_TESTS:
+        for p in (os.path.join(lib, "test", e + ".py"), os.path.join(lib, "test", e, "__init__.py")):
+            if os.path.exists(p):
+                files.append(p)
+    return lib, files
